@@ -4,6 +4,6 @@ CONSTANTS
   Ops <- AllOps
   DayPatterns <- PatternsStd
   WrongBase = FALSE
-  SpanShapes = {1, 2, 3, 4, 5, 6}
+  SpanShapes = {1, 2, 3, 4, 5, 6, 7}
 INVARIANTS Agree FoldValid FoldComments
 CHECK_DEADLOCK FALSE
